@@ -1743,7 +1743,7 @@ fn eval_image_input(channels: usize, h: usize, w: usize, form: usize) -> Bad {
         1 => format!("{{\"data\":\"{data}\",\"size\":{size_map},\"channels\":{channels}}}"),
         _ => format!("{{\"channels\":{channels},\"data\":\"{data}\",\"extra\":[1,{{}}],\"size\":{size_arr}}}"),
     };
-    let want: Vec<[u8; 4]> = (0..h * w)
+    let want: Vec<[u8; 4]> = (0..if matches!(channels, 1 | 3 | 4) { h * w } else { 0 })
         .map(|p| match channels {
             1 => [bytes[p], bytes[p], bytes[p], 255],
             3 => [bytes[3 * p], bytes[3 * p + 1], bytes[3 * p + 2], 255],
@@ -1761,6 +1761,9 @@ fn eval_image_input(channels: usize, h: usize, w: usize, form: usize) -> Bad {
         });
         match r {
             Err(p) => bad.push((panic_key("image-input", &p), panic_text(&p))),
+            // channel counts other than 1, 3, 4 are not a documented layout: whatever the answer is,
+            // it must be an answer (the data length is consistent with the declared count)
+            Ok(_) if !matches!(channels, 1 | 3 | 4) => {}
             Ok(Err(e)) => bad.push((format!("image-input:{channels}ch:rejected"), format!("valid {channels}-channel {h}x{w} document rejected ({route}): {e}"))),
             Ok(Ok(img)) => {
                 if (img.height(), img.width()) != (h, w) {
@@ -1948,8 +1951,11 @@ fn run_part1(ctx: &Ctx, viol: &Violations, samples: &Samples) -> Part1 {
     evals.fetch_add(cases.len() as u64, Ordering::Relaxed);
     samples.force(cases[cases.len() / 3].json());
     let mut inputs = vec![];
-    for ch in [1usize, 3, 4] {
+    for ch in [1usize, 3, 4, 0, 2, 5, 6, 8, 255] {
         for (h, w) in image_input_sizes() {
+            if !matches!(ch, 1 | 3 | 4) && h * w > 100 {
+                continue;
+            }
             for form in 0..3 {
                 inputs.push((ch, h, w, form));
             }
